@@ -6,7 +6,7 @@ import time
 
 VERIF = os.path.dirname(os.path.dirname(os.path.dirname(os.path.dirname(os.path.abspath(__file__)))))
 KNOWN = os.path.join(VERIF, "known_findings.json")
-EVID = os.path.join(VERIF, "evidence")
+EVID = os.environ.get("VERIF_EVIDENCE_DIR") or os.path.join(VERIF, "evidence")
 
 
 def site_of(body, bb=None, span=None):
